@@ -1,98 +1,46 @@
 /-
   C29 — The internal knowledge graph `_internal` is unreachable for non-admins.
-  Model: ILV.Model.Handler.execProgram (event trace = statement + current KG when it ran; queries are
-  recorded with the KG current at their line, and answered from the *final* KG).
-  Spec: ILV.Spec.Access.touchesInternal — the event runs with current KG `_internal`, acts on it
-  (`.kg use/drop`, `.kg acl …`), or creates it.
+  Model: the repaired `execute_program` (see Props/C27.lean). Spec: ILV.Spec.Access.touchesInternal.
 -/
 import ILV.Lemmas.C27
 namespace ILV.Props.C29
 open ILV ILV.Text ILV.Handler ILV.Gen.C28 ILV.Spec.Access ILV.Props.C27
 
-/-- the request leaves the caller's session bound to `_internal` -/
-def bindsInternal (w : World) (u : String) : Bool := (findSess w u).any fun s => !s.closed && s.kg == INTERNAL
+/-- **C29.** For every program text, session binding and KG argument: no statement of a request by a
+    non-admin identity runs with `_internal` as the current KG, acts on it (`.kg use/drop`, `.kg acl …`)
+    or creates it — provided no ACL row grants that identity a role on `_internal` itself. -/
+theorem C29 (P : Parser) (w : World) (rq : Req) (u : String) (r : Role)
+    (hid : identityOf w rq.user = some (some (u, r))) (hr : r ≠ Role.admin)
+    (hacl : kgRoleFor w INTERNAL u r = none) :
+    ∀ e ∈ (execProgram P w rq).trace, touchesInternal e = false := by
+  intro e he
+  rcases exec_gated P w rq e he with ⟨role, hrole, hg⟩
+  rw [hid] at hrole
+  cases hrole
+  exact gates_no_internal w u r e.stmt e.kg hr hacl hg
 
-/-- **C29, full statement**: no request of a non-admin identity runs a statement in, on, or into
-    `_internal`, nor leaves its session bound to it — whatever the program text and session binding. -/
-def C29_statement : Prop :=
-  ∀ (P : Parser) (w : World) (rq : Req) (u : String) (r : Role),
-    identityOf w rq.user = some (some (u, r)) → r ≠ Role.admin →
-    (∀ e ∈ (execProgram P w rq).trace, touchesInternal e = false) ∧
-    (bindsInternal w u = false → bindsInternal (execProgram P w rq).w u = false)
-
-/-! witnesses: `vi` is a global viewer and KG viewer of `default` -/
+/-! the former counterexamples (now corpus files) are refused -/
 def witP : Parser := fun k =>
   if k = "?m1(X)" then some ⟨.query, .query "m1" 1⟩
   else if k = ".kg use _internal" then some ⟨.kgUse, .name "_internal"⟩
   else if k = ".kg list" then some ⟨.kgList, .none⟩
   else if k = "?users(A, B, C)" then some ⟨.query, .query "users" 3⟩
-  else if k = "+users(\"x\", \"h\", \"admin\")" then some ⟨.insert, .insert "users" [[strVal "x", strVal "h", strVal "admin"]]⟩
-  else if k = ".kg list\n.kg use _internal" then some ⟨.kgList, .none⟩   -- the meta parser ignores trailing tokens
   else none
 def users0 : List Tuple := [[strVal "adm", strVal "h", strVal "admin"], [strVal "vi", strVal "h", strVal "viewer"]]
 def witW : World :=
   ⟨[⟨"_internal", [("users", users0), ("kg_acls", [[strVal "default", strVal "vi", strVal "viewer"]])], [], []⟩,
     ⟨"default", [("m1", [[.i64 0]])], [], []⟩],
    [⟨"vi", "default", [], [], false⟩]⟩
-/-- the name guard only looks at the whole-text parse: line 2 switches, line 3 reads the user table -/
-def rqRead : Req := ⟨some "vi", false, some "default", "?m1(X)\n.kg use _internal\n?users(A, B, C)".toList⟩
-/-- … and line 3 may as well create an admin account -/
-def rqWrite : Req := ⟨some "vi", false, some "default", "?m1(X)\n.kg use _internal\n+users(\"x\", \"h\", \"admin\")".toList⟩
-/-- with a session id the switch sticks: the session is re-bound to `_internal` -/
-def rqBind : Req := ⟨some "vi", true, none, ".kg list\n.kg use _internal".toList⟩
-/-- a session bound to `_internal` + an explicit KG: `default` is gated, `_internal` is queried -/
-def rqSess : Req := ⟨some "vi", true, some "default", "?users(A, B, C)".toList⟩
-
-theorem C29_refuted : ¬ C29_statement := by
-  intro h
-  have h1 := (h witP witW rqRead "vi" .viewer (by decide) (by decide)).1
-  revert h1
-  decide
-
-/-- the viewer is handed the user table, password hashes included -/
-theorem C29_refuted_read : (execProgram witP witW rqRead).res = .rows users0 := by decide
-
-/-- the viewer adds an admin account to `_internal.users` -/
-theorem C29_refuted_write :
-    (findKg (execProgram witP witW rqWrite).w INTERNAL).map (relOf · "users") =
-      some (users0 ++ [[strVal "x", strVal "h", strVal "admin"]]) := by decide
-
-/-- session re-binding, then the read through the session with an explicit, harmless KG argument -/
-theorem C29_refuted_session :
-    bindsInternal witW "vi" = false ∧ bindsInternal (execProgram witP witW rqBind).w "vi" = true ∧
-    (execProgram witP (execProgram witP witW rqBind).w rqSess).res = .rows users0 := by decide
-
-/-- **C29, partial theorem.** For single-line requests with a target KG that are not a `?…` carrying
-    both a session id and an explicit KG, and a caller without an ACL row on `_internal` itself, no
-    statement runs in, on or into `_internal` — for all grammars, states, sessions and texts. In
-    particular a session already bound to `_internal` (no explicit KG) and an explicit
-    `knowledge_graph = _internal` are refused (`denied-internal`, empty trace). -/
-theorem C29_partial (P : Parser) (w : World) (rq : Req) (u : String) (r : Role)
-    (hid : identityOf w rq.user = some (some (u, r))) (hr : r ≠ Role.admin)
-    (hacl : kgRoleFor w INTERNAL u r = none)
-    (h1 : singleLine rq = true) (h2 : sessionQueryWithKgArg w rq = false) (h3 : noTargetKg w rq = false) :
-    ∀ e ∈ (execProgram P w rq).trace, touchesInternal e = false := by
-  intro e he
-  cases hc : curKgOf w rq with
-  | none => simp [noTargetKg, hc] at h3
-  | some cur =>
-    rcases exec_trace_single P w rq cur h1 h2 hc e he with ⟨hk, _, role, hrole, hg⟩
-    rw [hid] at hrole
-    cases hrole
-    have := gates_no_internal w u r e.stmt cur hr hacl hg
-    rw [← hk] at this
-    exact this
-
--- the guards do fire where the partial theorem says so
-example : (execProgram witP witW ⟨some "vi", false, some "default", ".kg use _internal".toList⟩).res = .err "denied-internal" := by decide
-example : (execProgram witP witW ⟨some "vi", false, some "_internal", "?users(A, B, C)".toList⟩).res = .err "denied-internal" := by decide
-example : (execProgram witP (execProgram witP witW rqBind).w ⟨some "vi", true, none, "?users(A, B, C)".toList⟩).res = .err "denied-internal" := by decide
--- hypotheses of the partial theorem are satisfiable with a non-empty trace
+/-- a session that (by whatever means) is bound to `_internal` -/
+def witWbound : World := { witW with sess := [⟨"vi", "_internal", [], [], false⟩] }
+example : (execProgram witP witW ⟨some "vi", false, some "default", "?m1(X)\n.kg use _internal\n?users(A, B, C)".toList⟩).res = .err "denied-internal" := by decide
+example : (execProgram witP witW ⟨some "vi", true, none, ".kg list\n.kg use _internal".toList⟩).res = .err "denied-internal" ∧
+    (execProgram witP witW ⟨some "vi", true, none, ".kg list\n.kg use _internal".toList⟩).w = witW := by decide
+example : (execProgram witP witWbound ⟨some "vi", true, some "default", "?users(A, B, C)".toList⟩).res = .err "denied-internal" := by decide
+example : (execProgram witP witWbound ⟨some "vi", true, none, "?users(A, B, C)".toList⟩).res = .err "denied-internal" := by decide
+-- hypotheses are satisfiable with a non-empty trace
 example : identityOf witW (some "vi") = some (some ("vi", .viewer)) ∧ kgRoleFor witW INTERNAL "vi" .viewer = none ∧
-    singleLine ⟨some "vi", false, some "default", "?m1(X)".toList⟩ = true ∧
-    (execProgram witP witW ⟨some "vi", false, some "default", "?m1(X)".toList⟩).trace = [⟨⟨.query, .query "m1" 1⟩, "default"⟩] := by decide
--- the refuting requests lie in the excluded classes
-example : singleLine rqRead = false ∧ singleLine rqBind = false ∧
-    sessionQueryWithKgArg (execProgram witP witW rqBind).w rqSess = true := by decide
+    (execProgram witP witW ⟨some "vi", false, some "default", ".kg list\n?m1(X)".toList⟩).trace =
+      [⟨⟨.kgList, .none⟩, "default"⟩, ⟨⟨.query, .query "m1" 1⟩, "default"⟩] := by decide
 
 end ILV.Props.C29
